@@ -52,21 +52,25 @@ theorem wsub64_eq {a b : Nat} (h : b ≤ a) (ha : a < two64) : wsub64 a b = a - 
 
 /-! ### output side -/
 
+theorem pad_result {s s' : St} (h : injectBytePaddingBlock s = .ok s') :
+    ∃ nx, s' = padResult s nx := by
+  unfold injectBytePaddingBlock at h
+  split_all h
+  all_goals first
+    | (simp only [Out.ok.injEq] at h; exact ⟨_, h.symm⟩)
+    | (simp at h)
+
 theorem pad_frame {s s' : St} (h : injectBytePaddingBlock s = .ok s') :
     s'.frame = s.frame ∧ s'.lastFlushPos = s.lastFlushPos ∧ s'.lastProcessedPos = s.lastProcessedPos
     ∧ s'.isLastBlockEmitted = s.isLastBlockEmitted ∧ s'.lastBytesBits = 0 ∧ s'.storageSize = s.storageSize
     ∧ s'.isFirstMb = s.isFirstMb ∧ s'.totalOut = s.totalOut ∧ s'.nEnc = s.nEnc := by
-  unfold injectBytePaddingBlock at h
-  simp only at h
-  split_all h
-  all_goals frame_close1 h
+  obtain ⟨nx, rfl⟩ := pad_result h
+  simp [padResult, St.frame]
 
 theorem pad_pending {s s' : St} (h : injectBytePaddingBlock s = .ok s') :
     s'.pending = s.pending ++ sealBytes (s.lastBytes ||| (6 * 2 ^ s.lastBytesBits)) ((s.lastBytesBits + 6 + 7) / 8) := by
-  unfold injectBytePaddingBlock at h
-  simp only at h
-  split_all h
-  all_goals frame_close1 h
+  obtain ⟨nx, rfl⟩ := pad_result h
+  rfl
 
 theorem push_frame {s s' : St} {io io' : Io} {b : Bool} (h : injectFlushOrPushOutput s io = .ok (s', io', b)) :
     s'.frame = s.frame ∧ s'.lastFlushPos = s.lastFlushPos ∧ s'.lastProcessedPos = s.lastProcessedPos
